@@ -145,3 +145,11 @@ Theorem load_error_exits_nonzero :
     exit_status f all fail si false l = 1%Z.
 Proof. exact load_error_exit_gen. Qed.
 Print Assumptions load_error_exits_nonzero.
+
+(* a configuration chain with an undecodable file (syntax error or a value of the wrong type) fails to load;
+   the resulting load error is printed and counted like any compile/config error (failed_dep_kept,
+   load_error_exits_nonzero) *)
+Theorem undecodable_conf_fails :
+  forall chain, load_fails chain = true <-> exists c, In c chain /\ (c = ConfSyntaxError \/ c = ConfMistyped).
+Proof. exact undecodable_conf_fails_gen. Qed.
+Print Assumptions undecodable_conf_fails.
